@@ -371,6 +371,24 @@ def run(ctx: Ctx):
                           {"step": step, "configured_now": spec_h.model_dump(), "sequence": [s_.model_dump() for s_ in seq[: step + 1]],
                            "log_e_nu_head": y_h[:3].tolist(), "expected_head": np.asarray(fresh[0])[:3].tolist(), "norm_pair": [float(out_h[1]), float(out_h[2])]})
             break
+    # ------------------------------------------------------------------ what the caller does to the energies it received does not reach a later draw
+    cfg_a = nss.NssConfig()
+    for spec_a in (Simulation.MonoSpectrum(log_nu_energy=9.5), Simulation.PowerSpectrum(index=2.0, lower_bound=7.0, upper_bound=10.0)):
+        cfg_a.simulation.spectrum = spec_a
+        us_a = np.linspace(0.05, 0.95, 19)
+        first, exc_a, _ = call_real(nss, sm, cfg_a, spec_a, len(us_a), us_a)
+        if exc_a is not None:
+            continue
+        keep_a = np.array(first[0], copy=True)
+        arr_a = np.asarray(first[0])
+        if arr_a.flags.writeable:
+            arr_a += 9.0
+        second, exc_b, _ = call_real(nss, sm, cfg_a, spec_a, len(us_a), us_a)
+        ctx.case(("caller-edits-energies", spec_a.id)); ctx.count("caller_edits_energies")
+        if exc_b is None and not np.array_equal(np.asarray(second[0]), keep_a):
+            ctx.violation("Spectra.__call__", "energies-alias-a-shared-array",
+                          "after the caller edited the energies it received in place, a later draw of the same size does not give the configured energies",
+                          {"spectrum": spec_a.model_dump(), "N": len(us_a), "second_draw_head": np.asarray(second[0])[:3].tolist(), "expected_head": keep_a[:3].tolist()})
     # ------------------------------------------------------------------ diagnostics on: the optional result plots must not change what
     # is returned or stored (same uniform numbers -> same per-event energies, stored column = returned vector)
     os.environ.setdefault("MPLBACKEND", "Agg")
